@@ -202,3 +202,21 @@ prop("C02",
      assumptions=["a configured target.version names the target's real major version",
                   "NaN scores are not generated (Redis never stores them)",
                   "ucloud key prefix stripping (source.rdb.special_cloud) is not exercised"])
+
+prop("C14",
+     title="Resume picks its own source's newest checkpoint and reads what the sender wrote",
+     quick=[{"re": "^TestC14$", "checks": 2500}],
+     thorough=[{"re": "^TestC14$", "checks": 300000, "shards": 10, "timeout": 1700}],
+     rule="histories of 0-10 checkpoint writes into a model target (loopback TCP): sources drawn from a set with prefix-related addresses "
+          "(h:637 / h:6379 / h:63790, 10.0.0.1:6379 / 10.0.0.1:63791 / 10.0.0.11:6379), dbs 0-15, strictly increasing offsets per source (some "
+          "> 2^33), run id + version with the first write into a db (as the sender does) or rewritten later, version in {1,0,2,absent}, partially "
+          "written (no run id) and cleared run ids, user data in further dbs, plain or suffixed checkpoint key name. Oracle: reference resume rule "
+          "from the statement over the final state (greatest own offset; its run id and db, or '?'/-1 when it lacks a run id; -1 when none; refused "
+          "when its version < required) compared with checkpoint.LoadCheckpoint; afterwards own run-id/offset fields are gone from every other db "
+          "and every other field/key is byte-identical. Sender/loader agreement on real sender output is checked in C04. Non-trivial: prefix-related "
+          "sources present and own checkpoints in >= 2 dbs. Distinct = hash of the history.",
+     technique="property-based testing (rapid): generated write histories against a reference resume rule (model oracle) and a frame condition over the target keyspace",
+     level_text="Generated histories over the state space the statement names, with address sets built to contain prefix relations; the loader runs against a model Redis over TCP exactly as in production.",
+     level_note="Trusted: harness/mredis (SELECT/EXISTS/HGETALL/HDEL/INFO keyspace) and the reference rule in c14_test.go. Equal offsets in two dbs are not generated (offsets are strictly increasing per source).",
+     assumptions=["source addresses are host:port strings",
+                  "the target is standalone (cluster checkpoint naming is covered by C15)"])
